@@ -2,66 +2,93 @@ import CklVerif.Lemmas.C20EvalLib
 
 /-!
   C20 (evaluator part) — the modelled built-ins: every error they raise carries the position
-  they were called with, with an empty stack trace; they never write an AST into the state.
+  they were called with, with an empty stack trace; every value they return or store was among their
+  arguments or in the state.
 -/
 namespace Ckl
+attribute [local irreducible] ValsOK DictOK PairsOK
 set_option linter.unusedSectionVars false
+set_option linter.unusedVariables false
 
 section
-variable {E : String → Pos → List (String × Pos) → Prop} {S : State → Prop} [StInv S]
+variable {E : String → Pos → List (String × Pos) → Prop} {P : Pos → Prop}
 
 namespace PosOK
-theorem floatResult (x : Float) (pos : Pos) (w : String) : PosOK E S (floatResult x pos w) := by
+theorem floatResult (x : Float) (pos : Pos) (w : String) : PosOK E P (floatResult x pos w) := by
   unfold Ckl.floatResult; posok
-theorem listItems (v : RVal) : PosOK E S (listItems v) := by unfold Ckl.listItems; posok
-theorem collAsList (c : Cell) : PosOK E S (collAsList c) := by unfold Ckl.collAsList; posok
-theorem cmpLt (a b : RVal) : PosOK E S (cmpLt a b) := by unfold Ckl.cmpLt; posok
+theorem listItems {v : RVal} (hv : ValOK P v) : PosOK E P (listItems v) := by unfold Ckl.listItems; posok
+theorem collAsList {c : Cell} (hc : CellOK P c) : PosOK E P (collAsList c) := by unfold Ckl.collAsList; posok
+theorem cmpLt (a b : RVal) : PosOK E P (cmpLt a b) := by unfold Ckl.cmpLt; posok
 end PosOK
 end
 
-macro_rules | `(tactic| posok_lib) => `(tactic| exact PosOK.floatResult _ _ _)
-macro_rules | `(tactic| posok_lib) => `(tactic| exact PosOK.listItems _)
-macro_rules | `(tactic| posok_lib) => `(tactic| exact PosOK.collAsList _)
-macro_rules | `(tactic| posok_lib) => `(tactic| exact PosOK.cmpLt _ _)
+macro_rules | `(tactic| posok_lib) => `(tactic| (apply PosOK.floatResult <;> first | vok | eok))
+macro_rules | `(tactic| posok_lib) => `(tactic| (apply PosOK.listItems <;> first | vok | eok))
+macro_rules | `(tactic| posok_lib) => `(tactic| (apply PosOK.collAsList <;> first | vok | eok))
+macro_rules | `(tactic| posok_lib) => `(tactic| (apply PosOK.cmpLt <;> first | vok | eok))
 
 section
-variable {E : String → Pos → List (String × Pos) → Prop} {S : State → Prop} [StInv S]
+variable {E : String → Pos → List (String × Pos) → Prop} {P : Pos → Prop}
 namespace PosOK
-theorem cmpGt (a b : RVal) : PosOK E S (cmpGt a b) := by unfold Ckl.cmpGt; posok
-theorem asListArg (v : RVal) {pos : Pos} (h : ∀ msg, E msg pos []) : PosOK E S (asListArg v pos) := by
+theorem cmpGt (a b : RVal) : PosOK E P (cmpGt a b) := by unfold Ckl.cmpGt; posok
+theorem asListArg {v : RVal} (hv : ValOK P v) {pos : Pos} (h : ∀ msg, E msg pos []) : PosOK E P (asListArg v pos) := by
   unfold Ckl.asListArg; posok
-theorem asSetArg (v : RVal) {pos : Pos} (h : ∀ msg, E msg pos []) : PosOK E S (asSetArg v pos) := by
+theorem asSetArg {v : RVal} (hv : ValOK P v) {pos : Pos} (h : ∀ msg, E msg pos []) : PosOK E P (asSetArg v pos) := by
   unfold Ckl.asSetArg; posok
-theorem nativeAdd (a b : RVal) {pos : Pos} (h : ∀ msg, E msg pos []) : PosOK E S (nativeAdd a b pos) := by
+theorem isColl_get {c : Option Cell} (hi : isColl c = true) (hc : VC.ok P c) : CellOK P c.get! := by
+  cases c with
+  | none => cases hi
+  | some x => exact hc x rfl
+theorem nativeAdd {a b : RVal} (ha : ValOK P a) (hb : ValOK P b) {pos : Pos} (h : ∀ msg, E msg pos []) :
+    PosOK E P (nativeAdd a b pos) := by
   unfold Ckl.nativeAdd; posok
-theorem nativeSub (a b : RVal) {pos : Pos} (h : ∀ msg, E msg pos []) : PosOK E S (nativeSub a b pos) := by
+  all_goals (apply PosOK.collAsList; apply isColl_get <;> assumption)
+theorem nativeSub {a b : RVal} (ha : ValOK P a) (hb : ValOK P b) {pos : Pos} (h : ∀ msg, E msg pos []) :
+    PosOK E P (nativeSub a b pos) := by
   unfold Ckl.nativeSub; posok
-theorem nativeMul (a b : RVal) {pos : Pos} (h : ∀ msg, E msg pos []) : PosOK E S (nativeMul a b pos) := by
+theorem nativeMul {a b : RVal} (ha : ValOK P a) (hb : ValOK P b) {pos : Pos} (h : ∀ msg, E msg pos []) :
+    PosOK E P (nativeMul a b pos) := by
   unfold Ckl.nativeMul; posok
-theorem nativeDiv (a b : RVal) (d) {pos : Pos} (h : ∀ msg, E msg pos []) : PosOK E S (nativeDiv a b d pos) := by
+theorem nativeDiv {a b : RVal} (ha : ValOK P a) (hb : ValOK P b) {d : Option RVal} (hd : VC.ok P d) {pos : Pos}
+    (h : ∀ msg, E msg pos []) : PosOK E P (nativeDiv a b d pos) := by
   unfold Ckl.nativeDiv; posok
-theorem nativeMod (a b : RVal) {pos : Pos} (h : ∀ msg, E msg pos []) : PosOK E S (nativeMod a b pos) := by
+theorem nativeMod {a b : RVal} (ha : ValOK P a) (hb : ValOK P b) {pos : Pos} (h : ∀ msg, E msg pos []) :
+    PosOK E P (nativeMod a b pos) := by
   unfold Ckl.nativeMod; posok
 end PosOK
 end
 
-macro_rules | `(tactic| posok_lib) => `(tactic| exact PosOK.cmpGt _ _)
-macro_rules | `(tactic| posok_lib) => `(tactic| exact PosOK.asListArg _ (by eok))
-macro_rules | `(tactic| posok_lib) => `(tactic| exact PosOK.asSetArg _ (by eok))
-macro_rules | `(tactic| posok_lib) => `(tactic| exact PosOK.nativeAdd _ _ (by eok))
-macro_rules | `(tactic| posok_lib) => `(tactic| exact PosOK.nativeSub _ _ (by eok))
-macro_rules | `(tactic| posok_lib) => `(tactic| exact PosOK.nativeMul _ _ (by eok))
-macro_rules | `(tactic| posok_lib) => `(tactic| exact PosOK.nativeDiv _ _ _ (by eok))
-macro_rules | `(tactic| posok_lib) => `(tactic| exact PosOK.nativeMod _ _ (by eok))
+macro_rules | `(tactic| posok_lib) => `(tactic| (apply PosOK.cmpGt <;> first | vok | eok))
+macro_rules | `(tactic| posok_lib) => `(tactic| (apply PosOK.asListArg <;> first | vok | eok))
+macro_rules | `(tactic| posok_lib) => `(tactic| (apply PosOK.asSetArg <;> first | vok | eok))
+macro_rules | `(tactic| posok_lib) => `(tactic| (apply PosOK.nativeAdd <;> first | vok | eok))
+macro_rules | `(tactic| posok_lib) => `(tactic| (apply PosOK.nativeSub <;> first | vok | eok))
+macro_rules | `(tactic| posok_lib) => `(tactic| (apply PosOK.nativeMul <;> first | vok | eok))
+macro_rules | `(tactic| posok_lib) => `(tactic| (apply PosOK.nativeDiv <;> first | vok | eok))
+macro_rules | `(tactic| posok_lib) => `(tactic| (apply PosOK.nativeMod <;> first | vok | eok))
+
+theorem ValsOK.rm {P : Pos → Prop} (el : RVal) (s : State) : ∀ {xs : List RVal}, ValsOK P xs →
+    ValsOK P (callPure.rm el s xs)
+  | [], _ => by unfold callPure.rm; exact ValsOK.nil
+  | y :: ys, h => by
+    unfold callPure.rm
+    split
+    · exact h.tail
+    · exact ValsOK.cons h.head (ValsOK.rm el s h.tail)
 
 set_option maxHeartbeats 400000 in
-/-- every modelled built-in: an error carries the call position `pos` (as `E _ pos []` allows), and
-    the state invariant is kept -/
-theorem PosOK.callPure {E : String → Pos → List (String × Pos) → Prop} {S : State → Prop} [StInv S]
-    (name : String) (args : List (String × RVal)) (div0 : Option RVal) {pos : Pos} (h : ∀ msg, E msg pos [])
-    (m : EvalM RVal) (hm : callPure name args div0 pos = some m) : PosOK E S m := by
+/-- every modelled built-in: an error carries the call position `pos` (as `E _ pos []` allows), the
+    state invariant is kept, and the value returned was among the arguments or in the state -/
+theorem PosOK.callPure {E : String → Pos → List (String × Pos) → Prop} {P : Pos → Prop}
+    (name : String) {args : List (String × RVal)} (ha : DictOK P args) {div0 : Option RVal} (hd : VC.ok P div0)
+    {pos : Pos} (h : ∀ msg, E msg pos [])
+    (m : EvalM RVal) (hm : callPure name args div0 pos = some m) : PosOK E P m := by
   unfold Ckl.callPure at hm
   dsimp only at hm
   split at hm <;> first | (injection hm with hm; subst hm; posok) | (cases hm)
+  apply PosOK.modifyS
+  intro s hs
+  refine hs.setCell _ (ValsOK.rm _ _ ?_)
+  vok
 
 end Ckl
